@@ -139,6 +139,7 @@ package replicator
 //@   requires wfr(r)
 //@   loop 1 invariant forall h V_cid_Cid :: $seen[h] ==> r.tasks[h] != stateAdded && r.tasks[h] != stateFetching
 //@   ensures result ==> (forall h V_cid_Cid :: (h in r.tasks) ==> r.tasks[h] != stateAdded && r.tasks[h] != stateFetching)
+//@   ensures !result ==> (r.taskInProgress > 0 && len(deref(r.queue)) > 0) || (exists h V_cid_Cid :: (h in r.tasks) && (r.tasks[h] == stateAdded || r.tasks[h] == stateFetching))
 //@   modifies nothing
 
 // idle: hands the buffered logs over exactly once (one load-end event) and empties the buffer.
@@ -149,12 +150,14 @@ package replicator
 //@   ghost E := r.emitters.evtLoadEnd
 //@   ensures len(old(r.buffer)) > 0 ==> evCount(E) == old(evCount(E)) + 1 && len(r.buffer) == 0 && unbox(evLast(E), "V_replicator_EventLoadEnd").Logs == old(r.buffer)
 //@   ensures len(old(r.buffer)) == 0 ==> evCount(E) == old(evCount(E)) && r.buffer == old(r.buffer)
+//@   ensures len(r.buffer) == 0
 //@   modifies r.buffer, evCount(r.emitters.evtLoadEnd), evLast(r.emitters.evtLoadEnd)
 
 // processEntryDone: a fetched hash is remembered as fetched; a failed or cancelled fetch is forgotten, so the
-// hash can be requested again.
+// hash can be requested again; whenever the call leaves nothing added or fetching, whatever was buffered has
+// been handed over (a failed last task must not strand the logs fetched before it).
 //@ func (*replicator).processEntryDone
-//@   props C11
+//@   props C11 C10
 //@   flag nilcalls
 //@   requires item != nil && wfr(r)
 //@   ghost h := itemHash(item)
@@ -163,6 +166,7 @@ package replicator
 //@   ensures forall x V_cid_Cid :: x != h ==> (x in r.tasks) == old(x in r.tasks) && r.tasks[x] == old(r.tasks[x])
 //@   ensures r.taskInProgress == old(r.taskInProgress) - 1
 //@   ensures semHeld(r.sem) == old(semHeld(r.sem)) - 1
+//@   ensures @C10 @C11 (forall x V_cid_Cid :: (x in r.tasks) ==> r.tasks[x] != stateAdded && r.tasks[x] != stateFetching) && !(r.taskInProgress > 0 && len(deref(r.queue)) > 0) ==> len(r.buffer) == 0
 //@   modifies r.taskInProgress, mapof(r.tasks), cell(r.queue, "Slice<Iface>"), r.buffer, evCount(r.emitters.evtLoadEnd), evLast(r.emitters.evtLoadEnd), semHeld(r.sem)
 
 // waitForProcessSlot: with a slot the first queued item is taken and marked fetching; without one (cancelled
@@ -212,16 +216,16 @@ package replicator
 //@ noeffect (berty.tech/go-orbit-db/stores/replicator.storeInterface).SortFn
 //@ noeffect (berty.tech/go-orbit-db/stores/replicator.storeInterface).IO
 //@ func (*replicator).processHash
-//@   props C04 C10 C11 C03
-//@   safety C10 C11
+//@   props C04 C10 C11 C03 C09 C12
+//@   safety C10 C11 C12
 //@   flag nilcalls
 //@   requires wfr(r) && item != nil
 //@   ghost B0 := r.buffer
 //@   loop 1 invariant r.buffer == B0
-//@   loop 1 invariant @C04 @C03 forall j Int :: 0 <= j && j < $i ==> ptr($coll[j], "entry.Entry").LogID == logID(boxptr(l, "berty.tech/go-ipfs-log.IPFSLog"))
+//@   loop 1 invariant @C04 @C03 @C09 @C12 forall j Int :: 0 <= j && j < $i ==> ptr($coll[j], "entry.Entry").LogID == logID(boxptr(l, "berty.tech/go-ipfs-log.IPFSLog"))
 //@   ensures result1 != nil ==> r.buffer == B0
 //@   ensures r.buffer == B0 || (len(r.buffer) == len(B0) + 1 && (forall j Int :: 0 <= j && j < len(B0) ==> r.buffer[j] == B0[j]))
 //@   ensures len(r.buffer) == len(B0) + 1 ==> result1 == nil && logLen(r.buffer[len(B0)]) > 0 && prov(r.buffer[len(B0)]) == 1 && logID(r.buffer[len(B0)]) == logID(stLog(r.store)) && acOf(r.buffer[len(B0)]) == stAC(r.store)
-//@   ensures @C04 @C03 len(r.buffer) == len(B0) + 1 ==> (forall j Int :: 0 <= j && j < len(valsOf(r.buffer[len(B0)])) ==> ptr(valsOf(r.buffer[len(B0)])[j], "entry.Entry").LogID == logID(r.buffer[len(B0)]))
+//@   ensures @C04 @C03 @C09 @C12 len(r.buffer) == len(B0) + 1 ==> (forall j Int :: 0 <= j && j < len(valsOf(r.buffer[len(B0)])) ==> ptr(valsOf(r.buffer[len(B0)])[j], "entry.Entry").LogID == logID(r.buffer[len(B0)]))
 //@   ensures @C11 @C10 result1 == nil ==> logLen(lastFetched(0)) > 0
 //@   modifies r.buffer, lastFetched(0)
